@@ -13,7 +13,7 @@ use std::os::unix::process::ExitStatusExt;
 use std::process::{Command, Stdio};
 
 /// Child side: read JSON cases from stdin, run `check` on each, report on stdout.
-pub fn child_loop<C: DeserializeOwned>(check: &(dyn Fn(&C) -> CheckResult + Sync)) -> i32 {
+pub fn child_loop<C: DeserializeOwned + std::fmt::Debug>(check: &(dyn Fn(&C) -> CheckResult + Sync)) -> i32 {
     super::quiet_panics();
     let stdin = std::io::stdin();
     let stdout = std::io::stdout();
